@@ -46,7 +46,7 @@ HARNESSES = {
     "h_weights": ("harness/h_weights.cpp", ["asan", "fast"], "", []),
     "h_expand":  ("harness/h_expand.cpp", ["asan", "fast"], "", []),
     "h_invalid": ("harness/h_invalid.cpp", ["asan", "ndebug"], "", []),
-    "h_export":  ("harness/h_export.cpp", ["asan"], "", []),
+    "h_export":  ("harness/h_export.cpp", ["asan"], "-DVERIF_ROOT=\\\"%s\\\"" % VERIF, []),
     "h_bind":    ("harness/h_bind.cpp", ["asan"], "-I%s/harness/pybind_stub" % VERIF,
                   ["pycoloquinte/module.cpp"]),
 }
